@@ -232,11 +232,28 @@ def storeR (k : Rep) (x : XRat) : XRat :=
   | .dense => x
   | .sparse => if diffSmall x (.fin 0) then x else .fin 0
 
+/-- do the sparse 3D-container setters validate the rows AS STORED (after dropping sub-threshold entries)? -/
+def recheckT : Bool := AITB.Gen.Guards.recheck_MDP_SparseModel_setT3D
+def recheckO : Bool := AITB.Gen.Guards.recheck_POMDP_SparseModel_setO3D
+
+/-- everything `setTransitionFunction(3D container)` tests before it commits -/
+def okT3D (k : Rep) (s : St) (t : Tab3) : Bool :=
+  check3D s.S s.A s.S t &&
+  (match k with
+   | .dense => true
+   | .sparse => !recheckT || checkEigen .sparse (mk3 s.A s.S s.S (fun a x x1 => sparsify (get3 t x a x1))))
+
+def okO3D (k : Rep) (s : St) (o : Tab3) : Bool :=
+  check3D s.S s.A s.O o &&
+  (match k with
+   | .dense => true
+   | .sparse => !recheckO || checkEigen .sparse (mk3 s.A s.S s.O (fun a x z => sparsify (get3 o x a z))))
+
 def prog (k : Kind) : Op → List Stmt
   | .setDiscount d =>
       setter (vfDiscount k.base) (fun _ => !((discGuard k.base).eval d)) (fun s => { s with disc := d })
   | .setT3D t =>
-      setter (vfT3D k.base) (fun s => check3D s.S s.A s.S t)
+      setter (vfT3D k.base) (fun s => okT3D k.base s t)
         (fun s => { s with T := mk3 s.A s.S s.S (fun a x x1 => storeP k.base (get3 t x a x1)) })
   | .setTEigen t =>
       setter (vfTEigen k.base) (fun _ => checkEigen k.base t) (fun s => { s with T := t })
@@ -245,7 +262,7 @@ def prog (k : Kind) : Op → List Stmt
   | .setREigen r =>
       [.assign (fun s => { s with R := r })]
   | .setO3D o =>
-      setter (vfO3D k.obs) (fun s => check3D s.S s.A s.O o)
+      setter (vfO3D k.obs) (fun s => okO3D k.obs s o)
         (fun s => { s with Om := mk3 s.A s.S s.O (fun a x z => storeP k.obs (get3 o x a z)) })
   | .setOEigen o =>
       setter (vfOEigen k.obs) (fun _ => checkEigen k.obs o) (fun s => { s with Om := o })
